@@ -271,6 +271,27 @@ build_layers()
 # by that string
 for _i, _l in enumerate(LAYERS):
     globals()["ALIAS_%d" % _i] = _l
+# ... and under its own dotted name (module.name), through a module object that holds it (worlds whose tests name their
+# layers by that string)
+if WORLD.get("layerModules"):
+    import types as _types
+    for _i, _spec in enumerate(WORLD["layers"]):
+        if _spec["kind"] != "unit" and _spec["module"] != "wrt" and _spec["name"].isidentifier():
+            _m = sys.modules.get(_spec["module"])
+            if _m is None:
+                _m = sys.modules[_spec["module"]] = _types.ModuleType(_spec["module"])
+            setattr(_m, _spec["name"], LAYERS[_i])
+
+
+def layer_decl(node):
+    """what a suite or test of the world declares as its layer: the object, an alias string, or the dotted name"""
+    how = node.get("lyrAlias")
+    if how == "canon":
+        spec = WORLD["layers"][node["lyr"]]
+        return spec["module"] + "." + spec["name"]
+    if how:
+        return "wrt.ALIAS_%d" % node["lyr"]
+    return LAYERS[node["lyr"]]
 
 
 def do_part(test, ph, part):
@@ -301,6 +322,8 @@ def do_part(test, ph, part):
                 stream.write("TOK%dK\n" % tok)
     if part.get("slow"):
         clock_jump(part["slow"])
+    if part.get("sleep"):
+        time.sleep(part["sleep"])      # really takes that long (layers of a -j run finish in another order)
     if part.get("fd2"):
         os.write(2, part["fd2"].encode("latin-1"))
     if part.get("chdir"):
@@ -512,13 +535,13 @@ def build_suite(node):
     if node["t"] == "leaf":
         t = make_doctest(tests[node["id"]]) if tests[node["id"]].get("doctest") else make_test(tests[node["id"]])
         if node.get("lyr") is not None:
-            t.__class__.layer = ("wrt.ALIAS_%d" % node["lyr"]) if node.get("lyrAlias") else LAYERS[node["lyr"]]
+            t.__class__.layer = layer_decl(node)
         if node.get("lvl") is not None:
             t.__class__.level = node["lvl"]
         return t
     s = unittest.TestSuite([build_suite(k) for k in node["kids"]])
     if node.get("lyr") is not None:
-        s.layer = ("wrt.ALIAS_%d" % node["lyr"]) if node.get("lyrAlias") else LAYERS[node["lyr"]]
+        s.layer = layer_decl(node)
     if node.get("lvl") is not None:
         s.level = node["lvl"]
     return s
